@@ -124,6 +124,23 @@ impl<'a> Parser<'a> {
         Ok(args)
     }
     fn parse_number(&mut self) -> Result<Node, ParseError> {
+        // A prefix sign recurses once per character, so its frame is kept apart from the large
+        // match in `parse_operand`: 255 signs must fit an ordinary thread stack in a debug build.
+        match self.current_token {
+            Token::Subtract => {
+                self.get_next_token()?;
+                let expr = self.generate_ast(OperatorCategory::Negative)?;
+                Ok(Node::Negative(Box::new(expr)))
+            }
+            Token::Add => {
+                self.get_next_token()?;
+                let expr = self.generate_ast(OperatorCategory::Negative)?;
+                Ok(expr)
+            }
+            _ => self.parse_operand(),
+        }
+    }
+    fn parse_operand(&mut self) -> Result<Node, ParseError> {
         let token = self.current_token.clone();
         match token {
             Token::Ans => {
@@ -266,16 +283,6 @@ impl<'a> Parser<'a> {
                     }
                 };
                 self.implicit_multiply(current_function)
-            }
-            Token::Subtract => {
-                self.get_next_token()?;
-                let expr = self.generate_ast(OperatorCategory::Negative)?;
-                Ok(Node::Negative(Box::new(expr)))
-            }
-            Token::Add => {
-                self.get_next_token()?;
-                let expr = self.generate_ast(OperatorCategory::Negative)?;
-                Ok(expr)
             }
             Token::Num(i) => {
                 self.get_next_token()?;
